@@ -63,11 +63,32 @@ def world(decisions, module):
     return run
 
 
+class RunTimeout(BaseException):
+    """A converted function (or a conversion) that does not come back: reported, never waited for."""
+
+
+def _on_alarm(*a):
+    raise RunTimeout()
+
+
+RUN_SECONDS = 5.0          # every specification execution is a few dozen steps; the original runs in microseconds
+CONVERT_SECONDS = 60.0
+
+
 def observe(module, fn, p, decisions, recorder=None, inp=None):
+    import signal
     run = world(decisions, module)
     if recorder is not None:
         recorder.run = run
-    out = mp.outcome(fn, mp.main_args(p, inp))
+    signal.signal(signal.SIGALRM, _on_alarm)
+    signal.setitimer(signal.ITIMER_REAL, RUN_SECONDS)
+    try:
+        try:
+            out = mp.outcome(fn, mp.main_args(p, inp))
+        finally:
+            signal.setitimer(signal.ITIMER_REAL, 0)
+    except RunTimeout:
+        out = ['timeout', 'no result after %g s' % RUN_SECONDS]
     return dict(log=run.log, out=out, used=run.di)
 
 
@@ -104,8 +125,10 @@ def agree(rec, res):
         if res['used'] != len(rec['dec']):
             return 'decisions'
         return None
-    # an exception escapes: its type, and the effects up to the raise
-    if res['out'] != exp:
+    # an exception escapes: its type, and the effects up to the raise.  When a finally block ran while the exception was
+    # propagating, what that block does is outside the guarantee - in the converted function it may raise an exception of
+    # its own - so only "some exception escapes" is required then.
+    if res['out'] != exp and not (rec.get('finx') and res['out'][0] == 'exc'):
         return 'outcome'
     k = rec['xlog']
     if res['log'][:k] != rec['log'][:k]:
@@ -181,8 +204,17 @@ def _replay_chunk(args):
                     continue
                 if record_namer:
                     current['pid'] = pid
+                import signal
+                signal.signal(signal.SIGALRM, _on_alarm)
+                signal.setitimer(signal.ITIMER_REAL, CONVERT_SECONDS)
                 try:
-                    conv[o['name']] = convert_fn(fn, o)
+                    try:
+                        conv[o['name']] = convert_fn(fn, o)
+                    finally:
+                        signal.setitimer(signal.ITIMER_REAL, 0)
+                except RunTimeout:
+                    conv[o['name']] = None
+                    conv_errors.append(dict(pid=pid, opt=o['name'], error='Timeout: conversion did not finish within %g s' % CONVERT_SECONDS))
                 except Exception as e:   # conversion must succeed for every program of the class
                     conv[o['name']] = None
                     conv_errors.append(dict(pid=pid, opt=o['name'], error='%s: %s' % (type(e).__name__, str(e)[:300])))
